@@ -317,9 +317,9 @@ def run(ctx):
         for i, cp in enumerate(corpus):
             runs.append(("corpus%d" % i, "-replay %s" % cp))
         if quick:
-            runs.append(("fresh", "-seed %d -stores 14 -cases 70 -engines mem,pebble -srv 1 -big 5003" % ctx.seed))
+            runs.append(("fresh", "-seed %d -stores 14 -cases 70 -engines mem,pebble -srv 1 -big 5003 -exh 6" % ctx.seed))
         else:
-            runs.append(("fresh", "-seed %d -stores 150 -cases 120 -engines mem,pebble,rocksdb -srv 6 -big 5003" % ctx.seed))
+            runs.append(("fresh", "-seed %d -stores 1200 -cases 140 -engines mem,pebble,rocksdb -srv 20 -big 5003 -exh 9" % ctx.seed))
 
     all_mism, all_fail, total, hist_all, samples, distinct = [], [], 0, {}, [], set()
     engines = {}
@@ -371,7 +371,10 @@ def run(ctx):
              "(prefix-related, ':', ';', '9', 0x00, 0xff, 7/8/9/17 bytes, 'meta:') written through a real node.StateMachine. Cases: K = SCAN/ADVSCAN(+REV) per type, "
              "E = H/S/ZSCAN(+REV), each iterated by feeding the cursor back until empty (bound |P|+3), COUNT in {1,2,3,5,|P|,|P|+1,absent,random}, start cursor "
              "empty / an element / element+0x00 / element minus last byte / above all, MATCH from {*,?,literal} patterns in 35%; R = range builders; "
-             "S = the same iteration over the redis protocol against a live 1..4-partition in-process server. "
+             "S = the same iteration over the redis protocol against a live 1..4-partition in-process server (model: per-partition stores, merged cursor, COUNT split); "
+             "F = FULLSCAN per type (direct oracle only); one store with 5003 keys and COUNT around MAX_BATCH_NUM; "
+             "x* = exhaustive small scope: every subset of a pool of 6 (thorough: 9) prefix/boundary-related names as the keys of a table and as the fields of a hash, "
+             "COUNT 1..3, both directions, every start cursor from the pool. "
              "Non-trivial = the expected result has >= 2 elements; distinct by hash of (case, population).",
         histogram=hist_all,
         mismatches=len(all_mism),
